@@ -153,11 +153,16 @@ def get_type_graph(t: type) -> graphlib.TopologicalSorter[TypeNode]:
             if (
                 is_visited
                 and can_be_cyclic
-                and (typing.get_args(unwrapped) or isinstance(unwrapped, refs.ForwardRef))
+                and (
+                    typing.get_args(unwrapped)
+                    or isinstance(unwrapped, refs.ForwardRef)
+                    or "<locals>" in getattr(unwrapped, "__qualname__", "")
+                )
             ):
                 # A parameterized generic can't be referenced by name without
-                #   losing its parameters, and an alias given as a string already
-                #   unwraps to a reference: defer the type itself.
+                #   losing its parameters, an alias given as a string already
+                #   unwraps to a reference, and a class created inside a function
+                #   has no name that leads back to it: defer the type itself.
                 node = TypeNode(child, unwrapped, var=var, cyclic=True)
             elif is_visited and can_be_cyclic:
                 qualname = inspection.qualname(child)
